@@ -334,6 +334,20 @@ class Runner(Exec):
             raise Unsupported("for/else", s)
         it = s.iter
         # for x in <constant sequence>: unrolled (complete: the table is finite and read live)
+        if isinstance(it, ast.Call) and isinstance(it.func, ast.Name) and it.func.id in ("zip", "count") and it.func.id not in st.env:
+            import itertools
+
+            fobj = self.ev(st, it.func)
+            if it.func.id == "count" and fobj.k == "conc" and fobj.z is itertools.count and len(it.args) <= 1:
+                lo = as_int(ctx, st, self.ev(st, it.args[0]), s) if it.args else z3.IntVal(0)
+                self.do_loop(st, s, ("count", lo))
+                return
+            if it.func.id == "zip" and fobj.k == "conc" and fobj.z is zip and len(it.args) == 2:
+                sa, sb = self.ev(st, it.args[0]), self.ev(st, it.args[1])
+                if all(x.k == "ref" and (x.x or "").startswith("list") for x in (sa, sb)):
+                    self.do_loop(st, s, ("zip", sa, sb))
+                    return
+            raise Unsupported("for over %s(...)" % it.func.id, s)
         if not (isinstance(it, ast.Call) and isinstance(it.func, ast.Name) and it.func.id in ("range", "reversed", "enumerate")):
             seq = self.ev(st, it)
             if seq.k == "conc" and isinstance(seq.z, (list, tuple)):
@@ -371,6 +385,18 @@ class Runner(Exec):
                 return
             self.do_loop(st, s, ("range", lo, hi, step))
             return
+        if it.func.id in ("reversed", "enumerate") and len(it.args) == 1:
+            seq = self.ev(st, it.args[0])
+            if seq.k == "tuple" or (seq.k == "conc" and isinstance(seq.z, (list, tuple))):
+                items = seq.z if seq.k == "tuple" else [lift_conc(ctx, mk_conc(x), s) for x in seq.z]
+                if it.func.id == "reversed":
+                    self.unroll(st, s, list(reversed(items)))
+                else:
+                    self.unroll(st, s, [mk_tuple([mk_int(z3.IntVal(i)), x]) for i, x in enumerate(items)])
+                return
+            if seq.k == "ref" and (seq.x or "").startswith("list"):
+                self.do_loop(st, s, ("rlist" if it.func.id == "reversed" else "enum", seq))
+                return
         raise Unsupported("for over %s(...)" % it.func.id, s)
 
     def unroll(self, st, s, items):
@@ -418,26 +444,54 @@ class Runner(Exec):
             if mode[0] == "range":
                 _, lo, hi, step = mode
                 st.env[hidden] = mk_int(lo)
+            elif mode[0] == "count":
+                # itertools.count(lo): no upper bound; the loop only ends by return/break/raise
+                lo, step, hi = mode[1], 1, None
+                st.env[hidden] = mk_int(lo)
+            elif mode[0] == "rlist":
+                seq = mode[1]
+                lnz = ctx.field_array(st, "len", AII)[seq.z]
+                ctx.assume(st, lnz >= 0)
+                lo, step, hi = lnz - 1, -1, z3.IntVal(-1)
+                st.env[hidden] = mk_int(lo)
+            elif mode[0] == "zip":
+                la = ctx.field_array(st, "len", AII)[mode[1].z]
+                lb = ctx.field_array(st, "len", AII)[mode[2].z]
+                ctx.assume(st, z3.And(la >= 0, lb >= 0))
+                lo, step, hi = z3.IntVal(0), 1, z3.If(la < lb, la, lb)
+                st.env[hidden] = mk_int(lo)
             else:
                 seq = mode[1]
                 lo, step = z3.IntVal(0), 1
                 hi = ctx.field_array(st, "len", AII)[seq.z]
+                ctx.assume(st, hi >= 0)
                 st.env[hidden] = mk_int(lo)
             st.defd[hidden] = z3.BoolVal(True)
             # the loop bound is evaluated once (Python semantics of range)
-            hi_c = ctx.fresh("hi")
             lo_c = ctx.fresh("lo")
-            ctx.assume(st, z3.And(hi_c == hi, lo_c == lo))
-            hi, lo = hi_c, lo_c
+            if hi is None:
+                ctx.assume(st, lo_c == lo)
+                lo = lo_c
+            else:
+                hi_c = ctx.fresh("hi")
+                ctx.assume(st, z3.And(hi_c == hi, lo_c == lo))
+                hi, lo = hi_c, lo_c
 
         def bind_loopvar_names(state):
-            # inside invariants the loop variable name denotes the hidden counter
-            if mode is not None and isinstance(s.target, ast.Name):
-                return {s.target.id: state.env[hidden]}
-            return {}
+            # inside invariants the loop variable name (for tuple targets: the first name) and `_k` denote the hidden counter
+            if mode is None:
+                return {}
+            out = {"_k": state.env[hidden]}
+            if isinstance(s.target, ast.Name) and mode[0] not in ("rlist",):
+                out[s.target.id] = state.env[hidden]
+            elif isinstance(s.target, ast.Tuple) and mode[0] == "enum" and isinstance(s.target.elts[0], ast.Name):
+                out[s.target.elts[0].id] = state.env[hidden]
+            return out
 
         def range_inv(state):
             k = state.env[hidden].z
+            if hi is None:
+                return lo <= k
             if step == 1:
                 return z3.And(lo <= k, z3.Or(k <= hi, k == lo))
             return z3.And(k <= lo, z3.Or(k >= hi, k == lo))
@@ -493,16 +547,25 @@ class Runner(Exec):
             body_st = st.fork(c)
         else:
             k = st.env[hidden].z
-            guard = (k < hi) if step == 1 else (k > hi)
+            guard = z3.BoolVal(True) if hi is None else ((k < hi) if step == 1 else (k > hi))
             exit_st = st.fork(z3.Not(guard))
+            if hi is None:
+                exit_st.dead = True
             body_st = st.fork(guard)
-            if mode[0] == "range":
+            if mode[0] in ("range", "count"):
                 self.assign_target(body_st, s.target, mk_int(k), s)
             elif mode[0] == "opaque":
                 self.assign_target(body_st, s.target, SV("str", ctx.fresh("opaque_item")), s)
+            elif mode[0] == "enum":
+                self.assign_target(body_st, s.target, mk_tuple([mk_int(k), self.load_elem(body_st, mode[1], k, s)]), s)
+            elif mode[0] == "zip":
+                self.assign_target(body_st, s.target, mk_tuple([self.load_elem(body_st, mode[1], k, s), self.load_elem(body_st, mode[2], k, s)]), s)
             else:
                 self.assign_target(body_st, s.target, self.load_elem(body_st, mode[1], k, s), s)
             body_st.env[hidden] = mk_int(k + step)
+            # ghost name `_k`: index of the current element at body_start, of the next one at body_end (as in the invariants)
+            body_st.env["_k"] = mk_int(k)
+            body_st.defd["_k"] = z3.BoolVal(True)
         self.run_ghost(body_st, "%s.body_start" % tag)
         contract = getattr(fr, "contract", None)
         if contract is not None and ordn in getattr(contract, "split_loops", []):
@@ -513,18 +576,25 @@ class Runner(Exec):
         fr.loops.pop()
         for e in ends:
             if not e.dead:
+                if mode is not None:
+                    e.env["_k"] = e.env[hidden]
+                    e.defd["_k"] = z3.BoolVal(True)
                 self.run_ghost(e, "%s.body_end" % tag)
                 check_invs(e, "preserve")
         # 4. after the loop
         if mode is not None and mode[0] == "opaque" and isinstance(s.target, ast.Name):
             exit_st.env[s.target.id] = SV("str", ctx.fresh("opaque_item"))
             exit_st.defd[s.target.id] = ctx.fresh("def_item", z3.BoolSort())
-        elif mode is not None and isinstance(s.target, ast.Name):
+        elif mode is not None and isinstance(s.target, ast.Name) and mode[0] in ("range", "count"):
             # Python leaves the last value in the loop variable
             k = exit_st.env[hidden].z
             exit_st.env[s.target.id] = mk_int(k - step)
             prevd = pre.defd.get(s.target.id, z3.BoolVal(False)) if s.target.id in pre.env else z3.BoolVal(False)
             exit_st.defd[s.target.id] = z3.simplify(z3.Or(prevd, k != lo))
+        if mode is not None:
+            for x in [exit_st] + ctl.breaks:
+                x.env["_k"] = x.env.get(hidden, exit_st.env[hidden])
+                x.defd["_k"] = z3.BoolVal(True)
         merge_states(ctx, [exit_st] + ctl.breaks, st)
         self.run_ghost(st, "%s.after" % tag)
 
